@@ -110,6 +110,16 @@ def run(ctx, rep):
     dry = [(i, t) for i, t in call_blocks(b, r"metadata::write_blocks$")]
     rep.check("C10.validate", "exactly one dry-run write_blocks into Counter<Sink>", len(dry) == 1 and "Sink" in dry[0][1]["aty"][0], loc_of(b), str([t["aty"][0] for _, t in dry]))
 
+    # ---- C10.size: the size is measured on BlockList::blocks(), the write consumes the list by value: both iterate every block
+    DROPPING = {"filter", "filter_map", "skip", "skip_while", "take", "take_while", "step_by", "rev", "flat_map", "map_while", "scan", "peekable", "retain", "dedup", "drain", "truncate", "sort", "sort_by", "sort_by_key"}
+    its = [x for x in F.bodies if x.promoted is None and x.kind != "Closure" and (strip_generics(x.path) == "metadata::BlockList::blocks" or re.match(r"^<(&'?\w* ?(mut )?)?metadata::BlockList as std::iter::IntoIterator>::into_iter$", x.path))]
+    for x in its:
+        names = [strip_generics(callee_name(t)).rsplit("::", 1)[-1] for _, t in x.calls()]
+        extra = sorted(set(n for n in names if n in DROPPING))
+        rep.check("C10.size", "%s yields STREAMINFO followed by every stored block (no filtering)" % (x.path if x.path.startswith("<") else strip_generics(x.path)), not extra and "chain" in names and "once" in names, loc_of(x), str(names),
+                  "the block sequence that is measured (blocks()) and the one that is written (into_iter()) can differ: adaptors %s drop or reorder blocks, so an 'in-place' update writes a different number of bytes than it reserved" % extra)
+    rep.floor("C10.size", "BlockList iteration entry points", len(its), 2)
+
     # ---- C10.rewind -------------------------------------------------------------------------------
     start_def = call_blocks(b, r"std::io::Seek::stream_position$")
     reads = call_blocks(b, r"metadata::BlockList::read$")
